@@ -395,6 +395,8 @@ class Parser:
     def macro(self, name):
         """`assert!(c, "msg")`, `assert_eq!(a, b, "msg")`, `panic!("msg")`, `vec![a, b]`, `vec![x; n]` - everything else is refused"""
         self.next()                                  # `!`
+        if name == "unreachable":                    # phase 4j (rng mode only: the main lowering refuses the node)
+            self.expect("("); self.expect(")"); return ("unreachable",)
         if name in ("assert", "panic", "assert_eq"):
             self.expect("(")
             def go():
@@ -440,6 +442,8 @@ class Parser:
                 while True:
                     if self.kind() == "id" and self.peek() == "_": self.next(); pats.append(("wild",))
                     elif self.kind() == "num": v, suf = parse_int(self.next()); pats.append(("num", v, suf))
+                    elif self.kind() == "p" and self.peek() == "-" and self.kind(1) == "num":      # phase 4j: negative literal pattern
+                        self.next(); v, suf = parse_int(self.next()); pats.append(("num", -v, suf))
                     elif self.kind() == "id":
                         segs = [self.ident()]
                         while self.accept("::"): segs.append(self.ident())
@@ -3238,6 +3242,9 @@ def gen_all(repo):
             if spec.get("handler_mode"):      # phase 4e: generic butterfly network + NTTTables wrappers (tools/rs2lean_dwt.py)
                 import rs2lean_dwt
                 res[name] = rs2lean_dwt.generate(sys.modules[__name__], tr, spec)
+            elif spec.get("rng_mode"):        # phase 4j: BlakeRNG + samplers (tools/rs2lean_rng.py)
+                import rs2lean_rng
+                res[name] = rs2lean_rng.generate(sys.modules[__name__], tr, spec)
             else: res[name] = ladder_file(tr, spec) if spec.get("ladder") else tr.run_file(spec)
         except (Unsupported, SystemExit) as ex: res[name] = GenFailed(str(ex))
         except Exception as ex: res[name] = GenFailed("translator error: %s: %s" % (type(ex).__name__, ex))
@@ -3763,6 +3770,28 @@ TABLE_EVALCT += [
 for _n, _sp in FILES:
     if _n == "EvalFns.lean" and "Heathcliff.Model.Scheme" not in _sp["imports"]: _sp["imports"] = _sp["imports"] + ["Heathcliff.Model.Scheme"]
 # ------------------------------------------------------------------------------------------------------------------------------------
+
+# ------------------------------------------------------------------------------------------------------------------------------------
+# Phase 4j (worker R): the seeded generator and the samplers (tools/rs2lean_rng.py, "rng mode"; notes/work7-R.md)
+RG = "src/util/random_generator.rs"; RW = "src/util/rlwe.rs"
+FILES += [
+    ("RngFns.lean", {"ns": "GenRng", "rng_mode": True, "imports": ["Heathcliff.Model.Word", "Heathcliff.Gen.Rng"], "table": [
+        {"file": RG, "struct": "BlakeRNG"},
+        {"file": RG, "fn": "from_seed", "impl": "SeedableRng for BlakeRNG", "consts": {"BUFFER_SIZE": RG}, "model": "Rng.fromSeed"},
+        {"file": RG, "fn": "refill_buffer", "impl": "BlakeRNG", "model": "Rng.refill"},
+        {"file": RG, "fn": "next_u32", "impl": "RngCore for BlakeRNG", "consts": {"BUFFER_SIZE": RG}, "model": "Rng.nextU32"},
+        {"file": RG, "fn": "next_u64", "impl": "RngCore for BlakeRNG", "consts": {"BUFFER_SIZE": RG}, "model": "Rng.nextU64"},
+        {"file": RG, "fn": "fill_bytes", "impl": "RngCore for BlakeRNG", "consts": {"BUFFER_SIZE": RG}, "fuel": "{dest}.length + 1", "model": "Rng.fillBytes"},
+        {"file": UB, "fn": "hamming_weight", "model": "Rng.hammingWeight"},
+        {"file": RW, "fn": "centered_binomial", "mod": "sample", "model": "Rng.centeredBinomial"},
+        {"file": RW, "fn": "ternary", "mod": "sample", "model": "Rng.ternary"},
+        {"file": RW, "fn": "uniform", "mod": "sample", "model": "Rng.uniformPoly"},
+        {"file": "src/text.rs", "fn": "contains_seed", "impl": "ExpandSeed for Ciphertext", "skeleton": "contains_seed",
+         "consts": {"HE_CIPHERTEXT_SIZE_MIN": UB, "CIPHERTEXT_SEED_FLAG": ("src/text.rs", "u64")}, "model": "size = 2 and c1[0] = flag"},
+        {"file": "src/text.rs", "fn": "expand_seed", "impl": "ExpandSeed for Ciphertext", "skeleton": "expand_seed", "model": "Encrypt.expandSeed (skeleton over the flat buffer)"},
+    ]}),
+]
+
 
 if __name__ == "__main__":
     res = gen_all(sys.argv[1])
